@@ -2,6 +2,7 @@
 package checks
 
 import (
+	_ "verifmc/checks/c01"
 	_ "verifmc/checks/c02"
 	_ "verifmc/checks/c03"
 	_ "verifmc/checks/c06"
